@@ -162,6 +162,7 @@ def parseFields (s : String) : List (String × String) :=
   (s.splitOn ";").filterMap fun f =>
     if f.isEmpty then none else
     match f.splitOn "=" with
+    | [n] => some (n, n)                       -- field-init shorthand `{ x }` = `{ x: x }`
     | n :: rest => some (n, "=".intercalate rest)
     | [] => none
 
